@@ -230,7 +230,7 @@ Inductive upmsg :=
 | UCollFinish (ids : list string)      (* collectionfinish carries the ids *)
 | UFinished (sk : stopkind)
 | UComplete (i : nat) (ms : Z)
-| UWarning (decodable : bool)          (* warning_recorded; false: unserialize raises *)
+| UWarning (decodable : bool)          (* warning_recorded; false: unserialize_warning_message raises *)
 | UInternalError
 | UBad                                  (* unknown event name *)
 | UEnd.                                 (* channel end marker *)
@@ -248,8 +248,8 @@ Definition process_from_remote (n : nat) (m : upmsg) : D (list cevent) :=
   | UCollFinish ids => ret [QCollFinish n ids]
   | UComplete i ms => ret [QComplete n i ms]
   | UInternalError => ret [QInternalError n]
-  | UWarning true => ret [QWarning]
-  | UWarning false | UBad => d_node_shutdown n ;;; ret [QErrorDown n]
+  | UWarning _ => ret [QWarning]         (* a warning that cannot be rebuilt is re-emitted in generic form *)
+  | UBad => d_node_shutdown n ;;; ret [QErrorDown n]
   | UEv e =>
       match e with
       | EReady => ret [QReady n]
